@@ -14,7 +14,7 @@ from .core import hexs, hexb
 O_TRUNC = 0o1000
 OPT_STARTUP, OPT_DAILY, OPT_COMPRESS = 1, 2, 4
 DAY_MS = 86400000
-FNAMES = ["app.log", "app", "a+b(1).log", "my.app.log"]
+FNAMES = ["app.log", "app", "a+b(1).log", "my.app.log", ".app.log", "w[3].log", "[p]s{1}.log"]
 
 
 def ascii_digits(s):
@@ -159,7 +159,7 @@ def gen_payload(rnd, L, rid, big_ok=False, newline_ok=True):
         return "line1\nline2" + "\n" * rnd.randint(0, 2)
     if r < 0.885:
         # binary-looking content: carriage returns (alone and as CRLF), tabs, other C0 controls, DEL
-        return "".join(rnd.choice(["\r", "\r\n" if newline_ok else "\r", "\t", "\x1a", "\x7f", "\x01", "\x1b[0m", "a", "zz"])
+        return "".join(rnd.choice(["\r", "\r\n" if newline_ok else "\r", "\t", "\x1a", "\x7f", "\x01", "\x1b[0m", "a", "zz", "\x00", "b\x00c"])
                        for _ in range(rnd.randint(1, 40)))
     if r < 0.9 and big_ok:
         n = rnd.choice([8191, 8192, 8193, 16383, 16384, 16385, 65535, 65536, 65537, 200000, 1 << 20, (1 << 22) - 7])
